@@ -220,8 +220,9 @@ def check(ctx, p):
 
         def hook(pl, bb):
             l = pl["local"]
-            if l > b.argc and b.local_name(l) == "d" and not pl["proj"]:
-                return ("var", l, "d")
+            # the running sum, by role: a scalar user variable with several definitions
+            if l > b.argc and b.local_name(l) and not pl["proj"] and b.locals[l]["ty"] == "f64" and len([x for x in b.defs().get(l, []) if not b.is_cleanup(x[0])]) > 1:
+                return ("var", l, "acc")
             return None
         eb = ExprBuilder(b, place_hook=hook)
 
@@ -257,7 +258,7 @@ def check(ctx, p):
                 ctx.fail("C14-R5", C2IR, "h[n] index", "h[%s] written; expected n in 1..len" % k, loc)
                 continue
             # value = d / n, d accumulated over k
-            if not (val[0] == "bin" and val[1] == "Div" and val[2][0] == "var" and val[2][2] == "d" and syms.poly(val[3]) == k):
+            if not (val[0] == "bin" and val[1] == "Div" and val[2][0] == "var" and val[2][2] == "acc" and syms.poly(val[3]) == k):
                 ctx.fail("C14-R5", C2IR, "h[n] value", "h[n] = %s, expected d / n" % show(val)[:100], loc)
                 continue
             dl = val[2][1]
@@ -269,7 +270,7 @@ def check(ctx, p):
                 v = eb.at(dbb, di).rvalue(item["rv"])
                 if v[0] == "c" and float(v[1]) == 0.0:
                     init = (dbb, di)
-                elif v[0] == "bin" and v[1] == "Add" and v[2][0] == "var" and v[2][2] == "d":
+                elif v[0] == "bin" and v[1] == "Add" and v[2][0] == "var" and v[2][1] == dl:
                     fs = factors(v[3])
                     s2, n2, o2 = _guard_lvs(b, dbb, eb, syms)
                     K = None
